@@ -112,6 +112,33 @@ def unchecked_element_read(p, upto):
     return None
 
 
+def uncovered_fetch(p, term, k):
+    """a fetch of the pointer cell (vrd of this->data) mentioned in `term` that no containment abort check before event k mentions"""
+    evs = p.events
+    fetches = set()
+    q.mentions(term, lambda x: fetches.add(x) or False if isinstance(x, tuple) and x[:1] == ("vrd",) and len(x) > 2 and x[2] == ("fld", THIS_OBJ, "data") else False)
+    for v in fetches:
+        covered = any(e2.kind == "ASSUME" and (e2.extra or {}).get("abort_check") and
+                      q.mentions(e2.a, lambda x: isinstance(x, tuple) and x[:1] in (("ucall",), ("call",)) and
+                                 q.short(x[2] if x[0] == "ucall" else x[1]) in ("impl_is_in_same_sandbox", "impl_is_pointer_in_sandbox_memory") and as_address(x, v))
+                      for e2 in evs[:k])
+        if not covered:
+            return v
+    return None
+
+
+def as_address(t, v):
+    """does term t mention v as (part of) an ADDRESS - i.e. other than inside the argument of a length computation (strlen(...)), whose
+    result is a number that says nothing about where v points"""
+    if t == v:
+        return True
+    if not isinstance(t, tuple):
+        return False
+    if t[:1] in (("ucall",), ("call",)) and q.short(t[2] if t[0] == "ucall" else t[1]) in ("strlen", "strnlen", "wcslen"):
+        return False
+    return any(as_address(x, v) if isinstance(x, tuple) else (isinstance(x, list) and any(as_address(y, v) for y in x)) for x in t)
+
+
 def check_variant(rep, db, f, inst):
     from . import ops
     wk = ops.wrapper_kind(f)
@@ -220,6 +247,15 @@ def check_lengths(rep, db, f, inst, p, i, sn):
         if not q.mentions(b, lambda x: isinstance(x, tuple) and x[:1] == ("havoc",)):
             exts.append((a, lin("+", lin("-", b, a), C(1))))
     ok_ext = any(ext_matches(e, ln) for _a, e in exts)
+    if not ok_ext and sn == "copy_and_verify_string" and not exts:
+        # a pointer that lives in sandbox memory may read as null on the fetch the range helper makes although the first fetch was not:
+        # nothing is range-checked then, and nothing may be copied either - the verifier gets the empty string / nullptr
+        copies = bool(allocs) or any(e.kind == "VREAD" and e.loop > 0 and not (e.extra or {}).get("local") and root_of(e.a) != THIS_OBJ for e in evs) or \
+            any(e.kind == "CALL" and q.short(e.a) in ("basic_string", "memcpy", "strncpy", "strcpy", "assign", "append") and e.b and
+                not (isinstance(e.b[0], tuple) and e.b[0][:1] in (("decay",), ("strobj",), ("str",))) and e.b[0] != C(0) and
+                q.mentions(e.b[0], lambda x: isinstance(x, tuple) and x[:1] in (("vrd",), ("rd",))) for e in evs)
+        if not copies:
+            return True
     if not ok_ext:
         rep.violation("R-C09-single-fetch", site(f), "the extent that is range-checked is not derived from the length value %s" % fmt(ln), f["loc"], inst)
         return False
@@ -240,6 +276,14 @@ def check_lengths(rep, db, f, inst, p, i, sn):
     if sn == "copy_and_verify_string":
         ctor = [e for e in evs if e.kind == "CALL" and q.short(e.a) == "basic_string" and (e.extra or {}).get("ctor") and len(e.b) >= 2 and not (isinstance(e.b[0], tuple) and e.b[0][:1] in (("decay",), ("strobj",)))]
         for e in ctor:
+            # the bytes copied into the std::string start at a pointer value that was containment-checked: with the pointer itself in
+            # sandbox memory, the value used for strlen (an earlier fetch) is NOT the value the range helper fetched and checked
+            k_ = p.events.index(e)
+            v_ = uncovered_fetch(p, e.b[0], k_)
+            if v_ is not None:
+                rep.violation("R-C09-single-fetch", site(f) + " [string source]", "std::string is built from %s: that pointer value comes from a fetch of the pointer cell which no containment check covers "
+                              "(the range was checked for another fetch)" % fmt(e.b[0])[:80], e.loc, inst)
+                return False
             if e.b[0] != C(0) and isinstance(e.b[0], tuple) and e.b[0][:1] == ("rd",) and e.b[1][0] in ("tmp", "var"):
                 rep.violation("R-C09-single-fetch", site(f), "std::string is built with the (ptr) constructor, which re-scans sandbox memory for the terminator", e.loc, inst)
                 return False
